@@ -78,6 +78,52 @@ def payload_octets(I_, tag):
     return ABits([I_.atom_form(("payload", tag, i)) for i in range(64)], "bytes")
 
 
+def preamble_count(ctx, repo, tci, types):
+    """the first preamble CSBK of a data transmission starts the count-down: for EVERY announced number of blocks to follow
+    (the 8-bit field, as 8 bit atoms) the tracker afterwards expects exactly that many more bursts"""
+    from sa.bitabs import fin_conc
+    ctx.rule("track/preamble-count", "after the first preamble CSBK (idle tracker) blocks_expected - blocks_received equals the announced blocks-to-follow, for all 256 values of the field")
+    pc = repo.find_method(tci, "process_csbk")
+    ctx.saw_func(pc)
+    csbk_ci = repo.cls("etsi.layer2.pdu.csbk", "CSBK")
+    csbko = repo.enum_members(repo.cls("etsi.layer2.elements.csbk_opcodes", "CsbkOpcodes"))
+    I = Interp(repo)
+
+    def run_c(st):
+        I.st = st
+        t = I.construct(tci, [], {})
+        t.attrs["observers"] = [AExt("obs1")]
+        btf = AInt([I.atom_form(("btf", i)) for i in range(8)])
+        c = AObj(csbk_ci, {"csbko": csbko["PreambleCSBK"], "blocks_to_follow": btf, "__pdu__": "CSBK"})
+        I.call(pc, [t, c], {})
+        return t
+    atoms = None
+    bad = []
+    n = 0
+    for st, (k, v) in explore(run_c, max_paths=600):
+        I.st = st
+        n += 1
+        if k == "abort":
+            raise AnalysisError(f"{pc.qualname}: {v}")
+        if k == "raise":
+            bad.append(f"raises {v.exc} at {v.msg}")
+            continue
+        atoms = [I.atoms.get(("btf", i)) for i in range(8)]
+        exp, rec = v.attrs.get("blocks_expected"), v.attrs.get("blocks_received")
+        for x in range(256):
+            asg = {a: (x >> i) & 1 for i, a in enumerate(atoms)}
+            # only the values this path admits
+            if any(I.simp(F(1 << a, 0)).is_const and I.simp(F(1 << a, 0)).c != asg[a] for a in atoms if isinstance(I.simp(F(1 << a, 0)), F) and I.simp(F(1 << a, 0)).is_const):
+                continue
+            try:
+                e_, r_ = fin_conc(exp, asg), fin_conc(rec, asg)
+            except Exception as ex:
+                raise AnalysisError(f"{pc.qualname}: counters are not functions of the announced count ({ex})")
+            if e_ - r_ != x:
+                bad.append(f"announced {x}: {e_ - r_} more burst(s) expected")
+    ctx.ob("track/preamble-count", pc.qualname, not bad and n > 0, "; ".join(bad[:3]) or f"{n} path(s); the count-down equals the announced number for all 256 values", pc.loc)
+
+
 def make_burst(I, repo, kind):
     bci = repo.cls("etsi.layer2.burst", "Burst")
     dts = repo.enum_members(repo.cls("etsi.layer2.elements.data_types", "DataTypes"))
@@ -231,6 +277,8 @@ def run(ctx):
                 ctx.ob("track/idle-after-end", key, not idle_bad, "; ".join(sorted(set(idle_bad))[:2]) or "idle, fresh list, no header, fresh stream id", pp.loc)
                 ctx.ob("track/invariant", key, not inv_bad, "; ".join(sorted(set(inv_bad))[:2]) or "invariant preserved", pp.loc)
     ctx.extra["paths_process_packet"] = n_paths
+    with ctx.guard("preamble count-down"):
+        preamble_count(ctx, repo, tci, types)
     with ctx.guard("voice labels"):
         voice_labels(ctx, repo, tci, types, vb)
     with ctx.guard("timeslot"):
